@@ -179,6 +179,7 @@ class KBEval:
         self.env = dict(env or {})
         self.depth = depth
         self.overrides = overrides or {}     # callee qualified name -> KB (partitioned unknowns)
+        self.ub = []                         # undefined operations met while evaluating constants
 
     def width_of(self, n):
         ti = type_info(n.get('ty'))
@@ -240,6 +241,10 @@ class KBEval:
                 b = self.ev(n['r'])
                 cnt = b.value()
                 if cnt is None:
+                    return KB.top(w)
+                if cnt >= a.w:
+                    # shifting by the width or more is undefined in C / C++
+                    self.ub.append('shift of a %d-bit value by %d in %s' % (a.w, cnt, astq.show(n)[:60]))
                     return KB.top(w)
                 if op == '<<':
                     return a.shl(cnt)
@@ -345,6 +350,7 @@ class KBEval:
                     env[p['id']] = self.ev(a).resize(ti[0], (type_info(a.get('ty')) or (0, False))[1])
             sub = KBEval(self.F, env, self.depth + 1, self.overrides)
             r = sub.run_body(f)
+            self.ub += sub.ub
             if r is not None:
                 return r
         w, _ = self.width_of(n)
